@@ -1764,6 +1764,11 @@ private:
       num_remaining_lazy_rehash_locks(0);
     }
 
+    // Allocate the new bucket array before anything is changed, so that an
+    // allocation failure (here or while growing the locks array below) leaves
+    // the table exactly as it was.
+    buckets_t new_buckets(new_hp, get_allocator());
+
     // Resize the locks array if necessary. This is done before we update the
     // hashpower so that other threads don't grab the new hashpower and the old
     // locks.
@@ -1775,7 +1780,7 @@ private:
     // old_buckets_ data will be destroyed when move-assigning to buckets_.
     LIBCUCKOO_VERIF_EVENT(EV_BUCKETS_REPLACE, &buckets_, new_hp);
     old_buckets_.swap(buckets_);
-    buckets_ = buckets_t(new_hp, get_allocator());
+    buckets_ = std::move(new_buckets);
 
     // If we have less than kMaxNumLocks buckets, we do a full rehash in the
     // current thread. On-demand rehashing wouldn't be very easy with less than
